@@ -99,6 +99,8 @@ func c15Decl() *decl.Decl {
 		{Field: "L", Short: "l", Long: "list", Type: decl.TStrings, Desc: "a list"},
 		{Field: "M", Short: "m", Long: "map", Type: decl.TMapSI, Desc: "a map"},
 		{Field: "N", Long: "names", Type: decl.TMapSS, Desc: "another map"},
+		{Field: "K", Long: "keyed", Type: decl.TMapIS, Desc: "a map with int keys"},
+		{Field: "MB", Long: "switches", Type: decl.TMapSB, Desc: "a map of bools"},
 		{Field: "P", Long: "port", Type: decl.TInt, Desc: "a number", Defaults: []string{"80"}},
 		{Field: "Q", Short: "q", Type: decl.TBool, Desc: "short only"},
 	}}
@@ -165,6 +167,10 @@ func c15Scenarios() []c15Scenario {
 				b.Vals[o].Set(reflect.ValueOf(map[string]int{"b": 2, "a": 1, "c": 3}))
 			case "N":
 				b.Vals[o].Set(reflect.ValueOf(map[string]string{"y": "2", "x": "1"}))
+			case "K":
+				b.Vals[o].Set(reflect.ValueOf(map[int]string{20: "b", 3: "a", 100: "c"}))
+			case "MB":
+				b.Vals[o].Set(reflect.ValueOf(map[string]bool{"on": true, "off": false}))
 			}
 		}
 	}
@@ -196,6 +202,12 @@ func c15Scenarios() []c15Scenario {
 		{"ini-read", "map option in two sections", iniRead("M = a:1\n[Application Options]\nM = a:2\nM = b:3\n", false, true)},
 		{"ini-read", "two sections with an unknown option each", iniRead("Nope1 = 1\n[Grp]\nNope2 = 2\n", false, false)},
 		{"ini-read", "unknown section and unknown option", iniRead("Nope1 = 1\n[NoSuchGroup]\nx = 2\n", false, false)},
+		{"ini-read", "two unknown sections", iniRead("[Yotta]\na = 1\n[Zeta]\nb = 2\n", false, false)},
+		{"ini-read", "three unknown sections and a known one", iniRead("[Yotta]\na = 1\n[Application Options]\nS = s\n[Zeta]\nb = 2\n[Alpha]\nc = 3\n", false, false)},
+		{"ini-read", "unconvertible values in two sections", iniRead("P = x\n[Application Options]\nM = k:y\n", false, false)},
+		{"ini-read", "unknown section and unconvertible value in a known one", iniRead("P = x\n[Zeta]\nb = 2\n", false, false)},
+		{"ini-read", "empty unknown sections", iniRead("[Yotta]\n[Zeta]\n[Application Options]\nS = s\n", false, true)},
+		{"ini-read", "int-keyed and bool maps in two sections", iniRead("K = 2:b\nMB = on:true\n[Application Options]\nK = 1:a\nK = 3:c\nMB = off:false\n", false, true)},
 		{"ini-read", "as defaults, quoted and unquoted in two sections", iniRead("S = \"global\"\nG = plain\n[Application Options]\nS = named\n[Grp]\nG = \"quoted\"\n", true, true)},
 		{"help", "map options pre-populated", help(setMaps, nil)},
 		{"help", "map options given on the command line", help(nil, []string{"-m", "b:2", "-m", "a:1", "-m", "c:3", "--names", "y:2", "--names", "x:1"})},
@@ -226,6 +238,12 @@ func c15Scenarios() []c15Scenario {
 		{"errors", "three required options missing", parse(rd, "add")},
 		{"errors", "command required", parse(rd, "--aaa=1", "--bbb=2", "--ccc=3")},
 		{"errors", "unknown command", parse(rd, "--aaa=1", "--bbb=2", "--ccc=3", "zzz")},
+		{"errors", "invalid choice and unknown flag", func() string {
+			b := d.BuildTags()
+			_, err := b.Parser.ParseArgs([]string{"--nope", "--nada"})
+			return errText(err)
+		}},
+		{"values", "int-keyed map on the command line", parse(d, "--keyed", "20:b", "--keyed", "3:a", "--keyed=20:c", "--switches", "on:true", "--switches=off:false")},
 		{"values", "map option on the command line", parse(d, "-m", "b:2", "-m", "a:1", "-m", "b:3", "--names=k:v", "--names=j:w")},
 	}
 }
@@ -320,7 +338,7 @@ func init() {
 			}
 			return 4
 		},
-		Rule: "20 scenarios in 7 families (INI read with one option set from 2-3 sections incl. a case-variant section name, a map option in two sections, two faulty sections, as-defaults with mixed quoting, each followed by Write; help with pre-populated / command-line map options; man page; " +
+		Rule: "29 scenarios in 7 families (INI read with one option set from 2-3 sections incl. a case-variant section name, a map option in two sections, two faulty sections, two and three unknown sections, unconvertible values in two sections, empty unknown sections, int-keyed and bool-valued maps, as-defaults with mixed quoting, most followed by Write; help with pre-populated / command-line map options (string-, int-keyed and bool-valued maps); man page; " +
 			"INI write of 3-key maps under two IniOptions sets; completion of -, --, --p, in a command, of command names; ErrRequired with three missing options, ErrCommandRequired, ErrUnknownCommand; map values from the command line) x every iteration order at every map iteration of the library: " +
 			"the sources of /repo are type-checked at check time and every range over a map and every reflect MapKeys call is rewritten (go build -overlay) to ask a hook for the order; each position of each order is a deviation point (Lehmer code, 0 = canonical order) and the explorer enumerates every combination of <= 4 (quick) / <= 6 (thorough) deviations over the whole execution, which contains all n! orders of any single site with n <= 3 keys and all pairs of single displacements across sites; " +
 			"oracle: every execution of a scenario observes byte-identical output, error text and values; plus 6 free-running repetitions per scenario with the runtime's own order (sampling, only a cross-check that the seam misses nothing); " +
